@@ -443,7 +443,7 @@ func checkC06(c *Case, s *Stats) error {
 	}
 	var st *trie.SlimTrie
 	err = guard("Unmarshal of a legacy stream", func() error {
-		st = emptyTrie(c)
+		st = loadTarget(c)
 		if e := st.Unmarshal(b); e != nil {
 			return viol("legacy-rejected", "Unmarshal of a valid %s stream (%d bytes, header %q) failed: %v", c.Load, len(b), strings.TrimRight(string(b[:16]), "\x00"), e)
 		}
